@@ -201,6 +201,7 @@ type eventList struct {
 	seqs    sequenceNumSlice
 	events  map[sequenceNum]*event
 	lastSeq sequenceNum
+	hasLast bool // lastSeq holds a delivered sequence number (0 is a valid one).
 	maxSize int
 	timeout time.Duration
 }
@@ -223,6 +224,25 @@ func (l *eventList) remove() {
 	}
 }
 
+// advanceLastSeq records seq as delivered and returns the number of sequence
+// numbers skipped since the last in-order delivery. Late or duplicate events
+// (seq is not ahead of lastSeq, accounting for rollover) are not counted and
+// never move lastSeq backwards.
+func (l *eventList) advanceLastSeq(seq sequenceNum) int {
+	if !l.hasLast {
+		l.hasLast = true
+		l.lastSeq = seq
+		return 0
+	}
+
+	ahead := int32(seq - l.lastSeq)
+	if ahead <= 0 {
+		return 0
+	}
+	l.lastSeq = seq
+	return int(ahead - 1)
+}
+
 // Clear removes all events from the list and returns the events and the number
 // of list events.
 func (l *eventList) Clear() ([]*event, int) {
@@ -242,10 +262,7 @@ func (l *eventList) Clear() ([]*event, int) {
 		seq = l.seqs[0]
 		event := l.events[seq]
 
-		if l.lastSeq > 0 {
-			lost += int(seq - l.lastSeq - 1)
-		}
-		l.lastSeq = seq
+		lost += l.advanceLastSeq(seq)
 		evicted = append(evicted, event)
 		l.remove()
 	}
@@ -301,10 +318,7 @@ func (l *eventList) CleanUp() ([]*event, int) {
 		event := l.events[seq]
 
 		if event.complete || size > l.maxSize || event.IsExpired() {
-			if l.lastSeq > 0 {
-				lost += int(seq - l.lastSeq - 1)
-			}
-			l.lastSeq = seq
+			lost += l.advanceLastSeq(seq)
 			evicted = append(evicted, event)
 			l.remove()
 			continue
